@@ -61,6 +61,15 @@ NOTES = {
     ("reverse", "raises"): "REVERSE is the string function only on DuckDB; Spark's reverse also reverses arrays (LIST_REVERSE).",
     ("shiftleft", "raises"): "DuckDB refuses to left-shift a negative BIGINT; Spark shifts two's-complement values (-3 << 2 = -12).",
     ("shiftLeft", "raises"): "alias of shiftleft.",
+    ("corr", "value"): "a single pair: Spark returns NULL (zero variance), DuckDB's CORR returns NaN.",
+    ("factorial", "value", "beyond-20"): "Spark's factorial is NULL outside 0..20 (the result must fit a BIGINT); DuckDB's returns the HUGEINT value.",
+    ("left", "value", "negative-len"): "Spark's left/right with a negative length is ''; DuckDB's LEFT/RIGHT(s, -n) drops n characters from the other end.",
+    ("right", "value", "negative-len"): "see left.",
+    ("locate", "value", "pos-0"): "Spark's locate with pos 0 is 0; the STRPOS(SUBSTRING(s, pos), ..) emulation sqlglot generates finds the match.",
+    ("lpad", "raises", "empty-pad"): "Spark returns the (truncated) string for an empty pad; DuckDB's LPAD/RPAD raise 'Insufficient padding'.",
+    ("rpad", "raises", "empty-pad"): "see lpad.",
+    ("substring", "value", "pos-0"): "Spark treats position 0 like 1; DuckDB's SUBSTRING(s, 0, n) counts a virtual position 0 and returns n-1 characters.",
+    ("substr", "value", "pos-0"): "see substring.",
     ("spark-session", "Column.getItem"): "on a Spark-backed session the Column key is not shifted either: element_at(col, key) is 1-based.",
     ("spark-session", "array_position"): "the COALESCE(.., 0) guard is applied on Spark too: NULL array -> 0.",
     ("spark-session", "levenshtein"): "the CASE guard is applied on Spark too: NULL inputs -> -1.",
@@ -83,6 +92,8 @@ FIXED = {
     "C17/to_unix_timestamp/raises": ("8ddbf10", "to_unix_timestamp without a format raised NameError (_BaseSession not imported)", "to_unix_timestamp-raises", None),
     "C17/element_at/value/index-expression": ("d51b33c", "element_at(a, col + 1) read one position too low on DuckDB", "element_at-value", "index-expression"),
     "C17/element_at/value/typed-index": ("d51b33c", "element_at(a, col.cast('int')) read one position too high on DuckDB", "element_at-value", "typed-index"),
+    "C17/percentile/value": ("fefb690", "percentile returned an element of the column (PERCENTILE_DISC) instead of interpolating", "percentile-value", None),
+    "C17/skewness/value": ("87eb31d", "skewness of a single value returned NaN instead of NULL on DuckDB", "skewness-value", None),
     "C17/spark-session/levenshtein": ("0dba499", "levenshtein with a threshold returned -1 for NULL input on a Spark-backed session too", "spark-session-levenshtein", None),
     "C17/spark-session/overlay": ("dcac97a", "overlay read a str pos/len as a string literal on a Spark-backed session (NULL result)", "spark-session-overlay", None),
 }
